@@ -113,6 +113,29 @@ func (w *c14world) newCommits(b string) (n int, tableOK bool, err error) {
 	return -1, false, fmt.Errorf("branch %s: history too long", b)
 }
 
+// txCommits counts the commits carrying the branch's staged table on its first-parent chain.
+func (w *c14world) txCommits(b string) int {
+	cur, err := ref.GetHead(w.rs, b)
+	if err != nil {
+		return 0
+	}
+	n := 0
+	for i := 0; i < 10 && cur != nil; i++ {
+		c, err := objects.GetCommit(w.db, cur)
+		if err != nil {
+			return -1
+		}
+		if bytes.Equal(c.Table, w.stagedT[b]) {
+			n++
+		}
+		if len(c.Parents) == 0 {
+			break
+		}
+		cur = c.Parents[0]
+	}
+	return n
+}
+
 func (w *c14world) status() string {
 	tx, err := w.rs.GetTransaction(w.id)
 	if err != nil {
@@ -179,6 +202,8 @@ func c14Body(c *mc.Ctx) {
 	existing := c.Choose(1 << uint(nb))
 	perms := model.Perms(nb)
 	perm := perms[c.ChooseDev(len(perms))]
+	// an ordinary commit lands on every branch the interrupted attempt had already moved, before the re-run
+	interleave := nb >= 2 && c.ChooseDev(2) == 1
 	nops := 2
 	if c.Thorough() {
 		nops = 3
@@ -204,7 +229,7 @@ func c14Body(c *mc.Ctx) {
 	for _, o := range ops {
 		od = append(od, o.String())
 	}
-	desc := fmt.Sprintf("%d staged branches (existing mask %b, commit order %v); ops: %s; then a clean re-run of commit", nb, existing, perm, strings.Join(od, " ; "))
+	desc := fmt.Sprintf("%d staged branches (existing mask %b, commit order %v); ops: %s; then a clean re-run of commit (ordinary commits on already moved branches first: %v)", nb, existing, perm, strings.Join(od, " ; "), interleave)
 	c.Logf("%s", desc)
 	committed := false
 	discarded := false
@@ -319,7 +344,42 @@ func c14Body(c *mc.Ctx) {
 	// the transaction, if still in progress and not discarded, can be completed by re-running commit
 	if w.status() == "in-progress" && !discardAttempted {
 		m, _ := ref.ListTransactionRefs(w.rs, w.id)
-		if len(m) == nb {
+		later := map[string][]byte{}
+		if len(m) == nb && interleave {
+			for i, b := range w.branches {
+				if n, _, _ := w.newCommits(b); n == 1 {
+					head, _ := ref.GetHead(w.rs, b)
+					sum, err := commitTable(w.db, w.rs, b, bytes.Repeat([]byte{byte(0x90 + i)}, 16), [][]byte{head}, 200+i)
+					if err != nil {
+						panic(err)
+					}
+					later[b] = sum
+				}
+			}
+		}
+		if len(m) == nb && len(later) > 0 {
+			err, _, _ := w.run(c14op{"commit", "clean", 0})
+			if err != nil {
+				c.Fail("rerun-error", "re-running commit after the interrupted attempt (and an ordinary commit on the branches it had moved) failed: %v; %s", err, desc)
+				return
+			}
+			for _, b := range w.branches {
+				if n := w.txCommits(b); n != 1 {
+					c.Fail("rerun-duplicate", "after the interrupted attempt moved some branches, an ordinary commit landed on each of them and commit was re-run, branch %s carries %d commits of the transaction (want exactly 1); %s", b, n, desc)
+					return
+				}
+				if l, ok := later[b]; ok {
+					if head, _ := ref.GetHead(w.rs, b); !bytes.Equal(head, l) {
+						c.Fail("rerun-duplicate", "the re-run moved branch %s, which the interrupted attempt had already committed (an ordinary commit was made on it in between); %s", b, desc)
+						return
+					}
+				}
+			}
+			if w.status() != "committed" {
+				c.Fail("rerun-incomplete", "after re-running commit the transaction is %q; %s", w.status(), desc)
+				return
+			}
+		} else if len(m) == nb {
 			err, _, _ := w.run(c14op{"commit", "clean", 0})
 			if err != nil {
 				c.Fail("rerun-error", "re-running commit after the interrupted attempt failed: %v; %s", err, desc)
